@@ -85,7 +85,11 @@ def search(job):
         for toks, val in all_locations(doc):
             ptr = to_pointer(toks)
             # a fragment is the percent-encoded pointer; the plain spelling is the same fragment only without '%'
-            for frag in ([ptr] if "%" not in ptr else []) + [quote(ptr, safe="/~")]:
+            # ... and with the separators / escapes themselves percent-encoded (RFC 3986 decoding comes first)
+            enc_all = "".join("%%%02X" % b for b in ptr.encode("utf-8"))
+            enc_sep = quote(ptr, safe="").replace("%7E", "~") if "/" in ptr else None
+            enc_tilde = quote(ptr, safe="/") if "~" in ptr else None
+            for frag in ([ptr] if "%" not in ptr else []) + [quote(ptr, safe="/~")] + [f for f in (enc_all, enc_sep, enc_tilde) if f]:
                 tried += 1
                 obs, exp = run(r, exceptions, doc, frag), ("value", val)
                 if not same(obs, exp):
